@@ -205,6 +205,41 @@ FIXED += [
                                 st("v2", "filter", "v1", preds=[F("eq", C("g"), L(1))])], "result": "v2"}),
 ]
 
+FIXED += [
+    ("F31-polars-rank-struct-names", "C05", "rank / dense_rank with several ordering expressions",
+     "Polars: rank/dense_rank with two arrange= expressions over one column raised DuplicateError",
+     {"tables": [TB], "steps": [S(), st("v1", "mutate", "v0", items=[["p", F("dense_rank", arrange=[[C("s"), False, "last", 0],
+                                                                                                     [F("lt", C("s"), L("a")), False, "last", 0]])]])],
+      "result": "v1"}),
+    ("F32-sqlite-date-to-datetime-format", "C17", "cast from Date to Datetime uses the stored datetime text format",
+     "SQLite: Date -> Datetime cast produced a text format that compares wrongly with stored datetimes",
+     {"tables": [src([["id", "int64"], ["x", "datetime"], ["y", "date"]],
+                     [[1, {"$dt": "2000-02-29T00:00:00"}, {"$d": "2000-02-29"}], [2, {"$dt": "2000-02-29T01:00:00"}, {"$d": "2000-02-29"}]])],
+      "steps": [S(), st("v1", "mutate", "v0", items=[["gt", F("gt", C("x"), ["cast", C("y"), "datetime"])],
+                                                      ["eq", F("eq", C("x"), ["cast", C("y"), "datetime"])]])], "result": "v1"}),
+]
+
+FIXED += [
+    ("F33-polars-clip-non-numeric", "C03", "polars clip for string and boolean columns",
+     "Polars: clip on a String/Bool column raised InvalidOperationError",
+     {"tables": [TB], "steps": [S(), st("v1", "mutate", "v0", items=[["z", F("clip", C("s"), L("("), L("a"))]])], "result": "v1"}),
+    ("F34-sql-summarize-overwrites-key", "C04", "SQL summarize that overwrites a grouping column",
+     "SQL: summarize overwriting a grouping column failed at export (zip ValueError)",
+     {"tables": [TG], "steps": [S(), st("v1", "group_by", "v0", cols=[{"c": "g"}, {"c": "id"}]),
+                                st("v2", "summarize", "v1", items=[["s", F("sum", C("x"))], ["g", F("max", C("x"))]])], "result": "v2"}),
+    ("F35-count-star-filter-ignored", "C04", "pdt.count(filter=...) respects the filter",
+     "pdt.count(filter=...) ignored its filter on every backend",
+     {"tables": [TG], "steps": [S(), st("v1", "group_by", "v0", cols=[{"c": "g"}]),
+                                st("v2", "summarize", "v1", items=[["n", F("count_star", filter=[F("gt", C("x"), L(1))])]])], "result": "v2"}),
+]
+
+FIXED += [
+    ("F36-union-int-float", "C07", "union of an Int and a Float column",
+     "union of an Int and a Float column accepted but failed on Polars; metadata kept the left type",
+     {"tables": [src([["x", "int64"], ["s", "str"]], [[1, "a"], [2, "b"]]), src([["s", "str"], ["x", "float64"]], [["a", 1.0], [None, None]], "t1")],
+      "steps": [S(), S("v1", "t1"), {"out": "v2", "verb": "union", "in": "v0", "right": "v1", "distinct": True}], "result": "v2"}),
+]
+
 
 def main():
     log = subprocess.run(["git", "-C", "/repo", "log", "--format=%h %s"], capture_output=True, text=True).stdout.splitlines()
